@@ -125,6 +125,10 @@ func resp4str(r *dhcpv4.DHCPv4) string {
 }
 
 func execDg4(c *ctx, f []string) {
+	c.emit(strings.Join(f, " "), dg4Result(f))
+}
+
+func dg4Result(f []string) string {
 	bound, oob := atoi(f[1]), atoi(f[2])
 	dg := unhx(f[4])
 	log := &invLog{}
@@ -159,7 +163,7 @@ func execDg4(c *ctx, f []string) {
 	if len(log.entries) > 0 {
 		inv = strings.Join(log.entries, ",")
 	}
-	c.emit(strings.Join(f, " "), fmt.Sprintf("%s ; %s ; inv %s", parsed, res, inv))
+	return fmt.Sprintf("%s ; %s ; inv %s", parsed, res, inv)
 }
 
 // ---------------- DHCPv6
@@ -412,6 +416,13 @@ func (c *ctx) mutate(b []byte) []byte {
 
 func genDispatch4(c *ctx) {
 	for c.count < c.n {
+		execDg4(c, c.oneDg4())
+	}
+}
+
+// oneDg4 generates one dg4 operation
+func (c *ctx) oneDg4() []string {
+	{
 		d, _ := dhcpv4.New()
 		switch c.rng.Intn(8) {
 		case 0:
@@ -464,7 +475,7 @@ func genDispatch4(c *ctx) {
 		if bound == 0 && oob <= 0 && c.rng.Intn(4) != 0 {
 			oob = 4 // listen4 enables pktinfo on unbound listeners (fact F5)
 		}
-		execDg4(c, []string{"dg4", fmt.Sprint(bound), fmt.Sprint(oob), c.chain(false), hx(dg)})
+		return []string{"dg4", fmt.Sprint(bound), fmt.Sprint(oob), c.chain(false), hx(dg)}
 	}
 }
 
